@@ -66,6 +66,10 @@ impl Sm2PublicKey {
 
     /// Encrypt the given message.
     pub fn encrypt(&self, msg: &[u8], compressed: bool, model: Sm2Model) -> Sm2Result<Vec<u8>> {
+        // GB/T 32918.4 has no ciphertext for the empty message (klen = 0: the key stream t is empty)
+        if msg.is_empty() {
+            return Err(Sm2Error::InvalidFieldLen);
+        }
         loop {
             let klen = msg.len();
             let k = random_u256();
